@@ -129,7 +129,8 @@ impl QGramIndex {
         let mut diagonals = collections::HashMap::new();
         for (i, qgram) in self.ranks.qgrams(self.q, pattern).enumerate() {
             for &p in self.qgram_matches(qgram) {
-                let diagonal = p - i;
+                // the pattern position may be ahead of the text position: signed diagonal
+                let diagonal = p as isize - i as isize;
                 match diagonals.entry(diagonal) {
                     Entry::Vacant(v) => {
                         v.insert(Match {
